@@ -68,9 +68,11 @@ import (
 	"os"
 	"os/exec"
 	"regexp"
+	"runtime"
 	"strconv"
 	"strings"
 	"sync"
+	"syscall"
 	"time"
 
 	"github.com/pion/stun/v2"
@@ -100,6 +102,7 @@ type crashParent struct {
 	errBuf *bytes.Buffer
 	errMu  sync.Mutex
 	exited chan struct{}
+	pending chan crashRd // a line of the child that is being waited for
 }
 
 var crashP *crashParent
@@ -177,18 +180,25 @@ func crashSpawnOnce() error {
 	return nil
 }
 
+type crashRd struct {
+	s   string
+	err error
+}
+
+// one line of the child, waited for at most d.  A read that timed out stays pending: the next call goes on waiting for
+// the SAME line (the answer of a slow child is not lost and not mistaken for the answer to the next op)
 func crashReadLine(p *crashParent, d time.Duration) (string, error) {
-	type rd struct {
-		s   string
-		err error
+	if p.pending == nil {
+		ch := make(chan crashRd, 1)
+		p.pending = ch
+		go func() {
+			s, err := p.out.ReadString('\n')
+			ch <- crashRd{strings.TrimSpace(s), err}
+		}()
 	}
-	ch := make(chan rd, 1)
-	go func() {
-		s, err := p.out.ReadString('\n')
-		ch <- rd{strings.TrimSpace(s), err}
-	}()
 	select {
-	case r := <-ch:
+	case r := <-p.pending:
+		p.pending = nil
 		return r.s, r.err
 	case <-time.After(d):
 		return "", os.ErrDeadlineExceeded
@@ -249,6 +259,14 @@ func crashExec(tok []string) string {
 	return crashExec1(tok)
 }
 
+// how long the parent waits for the child's answer to one op (VERIF_CRASH_WAIT_S: for testing the parent itself)
+var crashAnswerWait = func() time.Duration {
+	if v, err := strconv.Atoi(os.Getenv("VERIF_CRASH_WAIT_S")); err == nil && v > 0 {
+		return time.Duration(v) * time.Second
+	}
+	return 90 * time.Second
+}()
+
 func crashExec1(tok []string) string {
 	if tok[0] == "reset" {
 		crashKill()
@@ -266,7 +284,7 @@ func crashExec1(tok []string) string {
 	if _, err := io.WriteString(p.in, strings.Join(tok, " ")+"\n"); err != nil {
 		// died before this op (should have been seen by the previous one)
 	}
-	line, err := crashReadLine(p, 90*time.Second)
+	line, err := crashReadLine(p, crashAnswerWait)
 	if err == nil && line != "" {
 		if strings.HasPrefix(line, "fail:") {
 			// a wedge was observed: the next op gets a fresh child, as after a death
@@ -284,10 +302,50 @@ func crashExec1(tok []string) string {
 		return line
 	}
 	if err == os.ErrDeadlineExceeded {
+		// no answer within the bound.  A wedged child never answers; a child that is merely slow (a loaded machine) does:
+		// give it the same time once more, and if the answer comes AND the watchdog passes afterwards, the observation is
+		// "alive, slow" (`slow:<answer>`, not compared, not a property failure) - otherwise `hang`, with the goroutine dump kept
+		late, err2 := crashReadLine(p, crashAnswerWait)
+		switch {
+		case err2 != nil && err2 != os.ErrDeadlineExceeded:
+			return crashDead(p) // it died meanwhile
+		case err2 == nil && strings.HasPrefix(late, "fail:"):
+			crashKill()
+			return late // the op itself saw a wedge
+		case err2 == nil && late != "":
+			if _, werr := io.WriteString(p.in, "watch\n"); werr == nil {
+				if wl, err3 := crashReadLine(p, crashAnswerWait); err3 == nil && wl == "ok" {
+					return "slow:" + late
+				}
+			}
+		}
+		crashHangDump(p, tok)
 		crashKill()
 		return "hang"
 	}
 	return crashDead(p)
+}
+
+// a child that does not answer: ask the Go runtime where every goroutine stands (SIGQUIT) and keep the dump for whoever has
+// to explain the hang ($VERIF_HANG_DIR, default /tmp; the run's scratch directory is removed when the run ends)
+func crashHangDump(p *crashParent, tok []string) {
+	_ = p.cmd.Process.Signal(syscall.SIGQUIT)
+	select {
+	case <-p.exited:
+	case <-time.After(10 * time.Second):
+	}
+	p.errMu.Lock()
+	s := p.errBuf.String()
+	p.errMu.Unlock()
+	if i := strings.LastIndex(s, "SIGQUIT"); i >= 0 {
+		s = s[max(0, i-200):]
+	}
+	dir := os.Getenv("VERIF_HANG_DIR")
+	if dir == "" {
+		dir = "/tmp"
+	}
+	name := fmt.Sprintf("%s/c16-hang-%d-%d.txt", dir, time.Now().Unix(), os.Getpid())
+	_ = os.WriteFile(name, []byte("op: "+strings.Join(tok[:min(len(tok), 4)], " ")+"\n"+s), 0o644)
 }
 
 func crashSettle(tok []string) time.Duration {
@@ -1223,6 +1281,9 @@ func crashChildExec(w *crashWorld, tok []string) string {
 	case "ostorm":
 		seed, _ := strconv.ParseInt(tok[1], 10, 64)
 		return w.ostorm(seed, atoi(tok[2]), atoi(tok[3]))
+	case "zzsleep": // not generated: lets the parent's handling of a slow / silent child be tested
+		time.Sleep(time.Duration(atoi(tok[1])) * time.Millisecond)
+		return "done"
 	case "stat":
 		byRun, names := w.svr.VerifSessDump()
 		crashCntMu.Lock()
@@ -1237,6 +1298,7 @@ func crashChildExec(w *crashWorld, tok []string) string {
 		for _, k := range ks {
 			out = append(out, fmt.Sprintf("%s=%d", k, crashCnt[k]))
 		}
+		out = append(out, fmt.Sprintf("goroutines=%d", runtime.NumGoroutine()))
 		return "stat:" + strings.Join(out, ",")
 	case "watch":
 		var why string
